@@ -52,6 +52,35 @@ impl Mon {
     }
 }
 
+/// Did the call deliver (and process) a suspicion about the current identity that can no longer be
+/// refuted, i.e. max(own incarnation, suspected incarnation) == Incarnation::MAX?
+fn unrefutable_suspicion_processed(rec: &CallRec, codec: CodecKind, max_packet: usize) -> bool {
+    let d = model::delivered(rec, max_packet, codec);
+    if !d.processed {
+        return false;
+    }
+    let mut own = rec.before.snap.incarnation;
+    for u in &d.updates {
+        if *u.id() != rec.before.identity {
+            continue;
+        }
+        match u.state() {
+            State::Down => return false, // handled by the Down clause
+            State::Suspect => {
+                let m = own.max(u.incarnation());
+                if m == u16::MAX {
+                    return true;
+                }
+                if u.incarnation() >= own {
+                    own = m + 1;
+                }
+            }
+            State::Alive => {}
+        }
+    }
+    false
+}
+
 /// Does this call justify a Defunct / Rejoin notification? (statement clause (i)-(iii))
 fn self_death_trigger(rec: &CallRec, codec: CodecKind, max_packet: usize) -> bool {
     if matches!(rec.call, Call::Leave) {
@@ -236,6 +265,14 @@ impl Monitor for Mon {
                 died,
                 "C08:self-down-without-defunct-or-rejoin",
                 "the call delivered Down/TurnUndead about the current identity {} but neither Defunct nor Rejoin was notified",
+                rec.before.identity
+            );
+        }
+        if rec.res.is_ok() && conn_before != Conn::Defunct && unrefutable_suspicion_processed(rec, self.codec, max_packet) {
+            ensure!(
+                died,
+                "C08:unrefutable-suspicion-without-defunct-or-rejoin",
+                "the call delivered a suspicion about {} that cannot be refuted (max(own, suspected) incarnation is the maximum) but neither Defunct nor Rejoin was notified",
                 rec.before.identity
             );
         }
